@@ -304,7 +304,15 @@ func (w *world) trackSaved() {
 	}
 }
 
-func runHistory(c hcase) []string {
+func runHistory(c hcase) (out []string) {
+	res := vrt.Run(vrt.Config{}, func() { out = runHistoryBody(c); vrt.Join() })
+	if res.Status != vrt.StatusOK {
+		out = append(out, "the history blocked for ever or crashed: "+res.Status.String()+" "+res.Msg)
+	}
+	return out
+}
+
+func runHistoryBody(c hcase) []string {
 	med, err := stores.NewMedium(c.Kind)
 	if err != nil {
 		vrt.MachineryFault("%v", err)
@@ -462,7 +470,12 @@ func suffixes(depth int) [][]hop {
 }
 
 // opsOf counts the store operations of the fault-free run (to enumerate fault positions).
-func opsOf(kind string, ops []hop) int {
+func opsOf(kind string, ops []hop) (n int) {
+	vrt.Run(vrt.Config{}, func() { n = opsOfBody(kind, ops); vrt.Join() })
+	return n
+}
+
+func opsOfBody(kind string, ops []hop) int {
 	med, _ := stores.NewMedium(kind)
 	defer med.Destroy()
 	hd, err := med.Open()
